@@ -163,6 +163,29 @@ def check_mean_interval(chk, pid, key, where, sm, im, cm, paths, kind, level, ce
                 bad.append('%s bound of the %s branch is %s, not %s' % (side, 't' if below else 'z', T.show(got)[:260], T.show(ref)[:200]))
     chk.ob(key, 'E3+E4 formula', desc_prefix, not bad, '; '.join(bad[:2]), where,
            sample={'obligation': key, 'centre': T.show(centre)[:80], 'se': T.show(se)[:120], 'nu': T.show(nu)[:60], 'q': T.show(q)})
+    if not bad:
+        # dynamic range: no intermediate of the code scales with a higher power of the data than the documented form
+        from .degree import max_degree
+
+        class _Degs(dict):
+            def get(self, name, default=None):
+                if name.startswith('S2') or name.startswith('v'):
+                    return Fraction(2)
+                if name.startswith('S1') or name.startswith('m'):
+                    return Fraction(1)
+                return Fraction(0)
+        worst = None
+        for below, p in seen.items():
+            dec = im.decode(unwrap_ok(p.ret))
+            c = crit(student_t(nu) if below else NORMAL, q)
+            for got, ref in ((dec[1], T.op('sub', centre, T.op('mul', c, se))), (dec[2], T.op('add', centre, T.op('mul', c, se)))):
+                if isinstance(got, int):
+                    continue
+                dg, dw = max_degree(got, _Degs()), max_degree(ref, _Degs())
+                if dg is None or dw is None or dg > dw:
+                    worst = (dg, dw)
+        chk.ob(key + ':range', 'E9 scaling degree', desc_prefix + ' - no intermediate scales with a higher power of the data than in the documented form',
+               worst is None, '' if worst is None else 'intermediate of scaling degree %s in the data; the documented form stays within %s' % worst, where)
     return not bad
 
 
